@@ -11,6 +11,9 @@ import PydapModel.FileHandlers
 import Proofs.FileHandlers
 import PydapModel.CsvReader
 import Proofs.CsvReader
+import Proofs.CsvColumns
+import PydapModel.FileSlab
+import Proofs.FileSlab
 namespace Pydap.C20
 open Pydap Pydap.FileHandlers
 
@@ -322,6 +325,169 @@ theorem C20_csv_unquoted_text_rejected (float : List Char → Option Nat) (hf : 
     Csv.csvFile float "\"a\"\nabc\n".toList = .error .notAFloat := by
   simp [Csv.csvFile, Csv.readAll, Csv.readFrom, Csv.step, Csv.stepStartField, Csv.save, Csv.add, Csv.isNl,
     Csv.lineEnds, Csv.reset, Csv.consRow, Csv.convRows, Csv.convRow, Csv.convField, hf]
+
+/-! ### CSV: header / record alignment (`CSVHandler.__init__` header loop + `CSVData.stream`) -/
+
+/-- **every column of the file is a column of the sequence, in order**: when the handler opens the file, the header
+    cells are all titles (strings), the sequence has one column per header cell — also for an empty title — in the
+    header's order, named by the quoted title (`q` = `pydap.lib._quote`: a title with a blank, comma, period, bracket
+    is kept, under its DAP spelling), no two alike, and the records are the file's rows -/
+theorem C20_csv_columns (q : List Char → List Char) (float : List Char → Option Nat) (text : List Char) (s : Csv.CsvSeq)
+    (hs : Csv.csvHandler q float text = .ok s) :
+    ∃ titles : List (List Char), Csv.csvFile float text = .ok (titles.map Csv.Cell.str, s.records) ∧
+      s.columns = titles.map q ∧ s.columns.length = titles.length ∧ s.columns.Nodup := by
+  obtain ⟨h, hf, hc⟩ := Csv.csvHandler_ok q float text s hs
+  obtain ⟨ts, rfl, hcols, hnd⟩ := (Csv.csvColumns_ok_iff q h s.columns).mp hc
+  exact ⟨ts, hf, hcols, by simp [hcols], hcols ▸ hnd⟩
+
+/-- **what the code does with duplicated titles** (repaired): a file that reads well but whose header has two titles
+    of one quoted name — the same text twice, two empty titles, or `a b` next to `a%20b` — or a title that is an
+    unquoted number, is refused as a whole (`OpenFileError`); it is opened iff the quoted titles are pairwise
+    distinct.  (Pinned: the later column replaced the earlier one and moved to the end; `"a","b","a"` was served as
+    columns `b, a` over records `a, b, a`.) -/
+theorem C20_csv_opened_iff_distinct_titles (q : List Char → List Char) (float : List Char → Option Nat)
+    (text : List Char) (h : List Csv.Cell) (rows : List (List Csv.Cell)) (hf : Csv.csvFile float text = .ok (h, rows)) :
+    (∃ s, Csv.csvHandler q float text = .ok s) ↔ ∃ titles : List (List Char), h = titles.map Csv.Cell.str ∧ (titles.map q).Nodup := by
+  simp only [Csv.csvHandler, hf]
+  constructor
+  · rintro ⟨s, hs⟩
+    cases hc : Csv.csvColumns q h with
+    | error e => simp [hc] at hs
+    | ok cols =>
+      obtain ⟨ts, h1, _, h3⟩ := (Csv.csvColumns_ok_iff q h cols).mp hc
+      exact ⟨ts, h1, h3⟩
+  · rintro ⟨ts, h1, h3⟩
+    have := (Csv.csvColumns_ok_iff q h (ts.map q)).mpr ⟨ts, h1, rfl, h3⟩
+    exact ⟨⟨ts.map q, rows⟩, by simp [this]⟩
+
+/-- **cell j of every record belongs to column j**: for every file in the reader's domain that the handler opens,
+    column `j` of the sequence carries the title of header cell `j`, and read on its own it yields, record by record
+    in the file's order, the j-th cell of that record of the file -/
+theorem C20_csv_rows_aligned (q : List Char → List Char) (float : List Char → Option Nat) (text : List Char)
+    (s : Csv.CsvSeq) (h : List Csv.Cell) (rows : List (List Csv.Cell))
+    (hf : Csv.csvFile float text = .ok (h, rows)) (hs : Csv.csvHandler q float text = .ok s) :
+    s.records = rows ∧ s.columns.length = h.length ∧
+    (∀ (j : Nat) (c : Csv.Cell), h[j]? = some c → ∃ t, c = Csv.Cell.str t ∧ s.columns[j]? = some (q t)) ∧
+    (∀ (i : Nat) (r : List Csv.Cell), rows[i]? = some r → ∀ j : Nat, (s.column j)[i]? = some r[j]?) := by
+  obtain ⟨h', hf', hc⟩ := Csv.csvHandler_ok q float text s hs
+  rw [hf] at hf'
+  injection hf' with hf'
+  injection hf' with h1 h2
+  subst h1
+  obtain ⟨ts, rfl, hcols, -⟩ := (Csv.csvColumns_ok_iff q h s.columns).mp hc
+  refine ⟨h2.symm, by simp [hcols], ?_, ?_⟩
+  · intro j c hj
+    rw [List.getElem?_map] at hj
+    cases ht : ts[j]? with
+    | none => simp [ht] at hj
+    | some t =>
+      simp only [ht, Option.map_some, Option.some.injEq] at hj
+      exact ⟨t, hj.symm, by simp [hcols, ht]⟩
+  · intro i r hi j
+    simp [Csv.CsvSeq.column, ← h2, List.getElem?_map, hi]
+
+/-- the same, end to end from the text a `QUOTE_NONNUMERIC` writer produces (the domain of `C20_csv_quoting`): the
+    sequence served for it has the quoted names as columns and, under column `j`, the j-th cell written in every row -/
+theorem C20_csv_written_file_aligned (nl : List Char) (hnl : nl = ['\n'] ∨ nl = ['\r', '\n'])
+    (q : List Char → List Char) (float : List Char → Option Nat) (fl : List Char → Nat)
+    (names : List (List Char)) (rows : List (List Csv.WCell)) (hnames : names ≠ [])
+    (hok : ∀ r ∈ rows, Csv.RowOK r) (hfl : ∀ r ∈ rows, Csv.FloatOK float fl r) (hd : (names.map q).Nodup) :
+    Csv.csvHandler q float (Csv.renderRows nl (names.map Csv.WCell.q :: rows)) =
+      .ok ⟨names.map q, rows.map fun r => r.map (Csv.cellOf fl)⟩ := by
+  have hq := C20_csv_quoting nl hnl float fl names rows hnames hok hfl
+  have hc := (Csv.csvColumns_ok_iff q (names.map Csv.Cell.str) (names.map q)).mpr ⟨names, rfl, rfl, hd⟩
+  simp only [Csv.csvHandler, hq, hc]
+
+private def qEx (t : List Char) : List Char := t.flatMap fun c => if c = ' ' then "%20".toList else [c]
+private def flEx (t : List Char) : Option Nat := if t = "1".toList then some 1 else if t = "2".toList then some 2 else if t = "3".toList then some 3 else none
+
+-- an empty title and a title needing quoting are columns; cell j stays under title j
+example : Csv.csvHandler qEx flEx "\"a b\",\"\",\"c\"\n1,2,3\n".toList =
+    .ok ⟨["a%20b".toList, [], "c".toList], [[.num 1, .num 2, .num 3]]⟩ := by rfl
+example : (Csv.CsvSeq.mk ["a%20b".toList, [], "c".toList] [[.num 1, .num 2, .num 3]]).column 1 = [some (.num 2)] := by rfl
+-- duplicated titles (same text; two empty; one name after quoting) and a numeric title: refused
+example : Csv.csvHandler qEx flEx "\"a\",\"b\",\"a\"\n1,2,3\n".toList = .error .duplicateTitle := by rfl
+example : Csv.csvHandler qEx flEx "\"\",\"\"\n1,2\n".toList = .error .duplicateTitle := by rfl
+example : Csv.csvHandler qEx flEx "\"a b\",\"a%20b\"\n1,2\n".toList = .error .duplicateTitle := by rfl
+example : Csv.csvHandler qEx flEx "1,\"a\"\n1,2\n".toList = .error .numericTitle := by rfl
+-- a short record is served as it is: column 1 has no cell in it
+example : (Csv.csvHandler qEx flEx "\"a\",\"b\"\n1\n2,3\n".toList).toOption.map (·.column 1) =
+    some [none, some (.num 3)] := by rfl
+
+/-! ### NetCDF: a variable's dimension names, position by position -/
+
+/-- `d` is visible from the group at `P`: some enclosing scope declares it -/
+def Visible (f : NcFile) (P : List String) (d : String) : Prop := ∃ Q, Q <+: P ∧ Declares f Q d
+
+/-- **dimension names = the variable's own dimension tuple, in the variable's order, repeated dimensions repeated,
+    each fully qualified by the nearest enclosing declaration** — root variables (coordinate variables included) and
+    variables of groups at any depth: the entry's dimension list has the variable's rank, and its j-th name is
+    `(Q, d)` where `d` is the variable's j-th dimension and `Q` the nearest enclosing scope declaring `d` -/
+theorem C20_dims_positional (f : NcFile) (hnames : (f.root.vars.map Var.name).Nodup) (hp : NoPathAttr f) :
+    (∀ v ∈ f.root.vars, ∃ ds lazy, Entry.var [] v.name v.ty v.shape ds v.attrs lazy ∈ netcdfEntries f ∧
+        ds.length = v.dims.length ∧
+        ∀ (j : Nat) (d : String), v.dims[j]? = some d → ds[j]? = some (([] : List String), d) ∧ (Visible f [] d → NearestDecl f [] d [])) ∧
+    (∀ g ∈ f.groups, ∀ v ∈ g.vars, ∃ ds, Entry.var g.path v.name v.ty v.shape ds v.attrs true ∈ netcdfEntries f ∧
+        ds.length = v.dims.length ∧
+        ∀ (j : Nat) (d : String), v.dims[j]? = some d → ∃ Q, ds[j]? = some (Q, d) ∧ (Visible f g.path d → NearestDecl f g.path d Q)) := by
+  obtain ⟨h1, h2⟩ := C20_tree_complete_partial f hnames hp
+  constructor
+  · intro v hv
+    refine ⟨_, _, h1 v hv, by simp, ?_⟩
+    intro j d hj
+    have hr : resolveDim f [] d = ([], d) := rfl
+    refine ⟨by simp [List.getElem?_map, hj, hr], ?_⟩
+    intro hvis
+    have := (C20_dim_nearest_scope f [] d hvis).1
+    rwa [hr] at this
+  · intro g hg v hv
+    refine ⟨_, h2 g hg v hv, by simp, ?_⟩
+    intro j d hj
+    refine ⟨(resolveDim f g.path d).1, by simp [List.getElem?_map, hj, resolveDim], ?_⟩
+    intro hvis
+    exact (C20_dim_nearest_scope f g.path d hvis).1
+
+private def repFile : NcFile :=
+  { root := { path := [], dims := [("x", 3), ("y", 2)], attrs := [],
+              vars := [{ name := "d", ty := "i4", shape := [3, 3], dims := ["x", "x"], attrs := [] },
+                       { name := "x", ty := "i4", shape := [3, 3], dims := ["x", "x"], attrs := [] }] },
+    groups := [{ path := ["A"], dims := [("x", 2)], attrs := [], vars :=
+                  [{ name := "u", ty := "i4", shape := [2, 2, 2], dims := ["x", "y", "x"], attrs := [] }] },
+               { path := ["A", "A1"], dims := [], attrs := [], vars :=
+                  [{ name := "u2", ty := "i4", shape := [2, 2], dims := ["x", "x"], attrs := [] }] }] }
+
+-- `d(x,x)`: both positions named `/x`; `/A/u(x,y,x)`: `/A/x`, `/y`, `/A/x`; `/A/A1/u2(x,x)`: `/A/x` twice
+example : Entry.var [] "d" "i4" [3, 3] [([], "x"), ([], "x")] [] true ∈ netcdfEntries repFile ∧
+    Entry.var [] "x" "i4" [3, 3] [([], "x"), ([], "x")] [] false ∈ netcdfEntries repFile ∧
+    Entry.var ["A"] "u" "i4" [2, 2, 2] [(["A"], "x"), ([], "y"), (["A"], "x")] [] true ∈ netcdfEntries repFile ∧
+    Entry.var ["A", "A1"] "u2" "i4" [2, 2] [(["A"], "x"), (["A"], "x")] [] true ∈ netcdfEntries repFile := by decide
+example : NoPathAttr repFile ∧ (repFile.root.vars.map Var.name).Nodup := by
+  constructor
+  · unfold NoPathAttr; decide
+  · decide
+example : Visible repFile ["A", "A1"] "x" := ⟨["A"], by decide, _, rfl, by decide⟩
+
+/-! ### hyperslabs whose stride exceeds their span -/
+
+/-- **`[a:s:b]` with a stride larger than the span selects one element**: on every axis where `check_hyperslab`
+    (`Handler.validSl`, C15/C02) accepts `slice(a, b+1, s)` and `b - a < s`, the key handed to the NetCDF library
+    reads exactly position `a` — so the served array has extent 1 there, and by `C20_hyperslab` holds what the
+    library reads at it -/
+theorem C20_hyperslab_wide_stride (shape : List Nat) (h : Hyperslab) (hl : shape.length = h.length)
+    (hw : ∀ p ∈ shape.zip h, WideAxis p.1 p.2) :
+    keyPositions shape (keyOfHyperslab h) = h.map fun t => [t.1] :=
+  keyPositions_wide shape h hl hw
+
+/-- one axis, in the terms of C15's `C15_valid_axis` -/
+theorem C20_wide_stride_one_axis (N : Nat) (a k b : Int)
+    (hv : Handler.validSl N ⟨some a, some (b + 1), some k⟩ = true) (hN : 0 < N) (hk : b - a < k) :
+    sel N ⟨some a, some (b + 1), some k⟩ = [a.toNat] :=
+  sel_wide_stride N a k b hv hN hk
+
+-- `d[0:5:2][1:9:1]` on a 3×3 variable reads row 0, column 1; `[1:7:1][0:1:2]` reads row 1 whole
+example : keyPositions [3, 3] (keyOfHyperslab [(0, 5, 2), (1, 9, 1)]) = [[0], [1]] := by decide
+example : keyPositions [3, 3] (keyOfHyperslab [(1, 7, 1), (0, 1, 2)]) = [[1], [0, 1, 2]] := by decide
+example : WideAxis 3 (0, 5, 2) ∧ WideAxis 3 (1, 9, 1) := by unfold WideAxis; decide
 
 /-! ### non-vacuity -/
 
